@@ -75,15 +75,152 @@ Proof.
     + split; discriminate.
 Qed.
 
-Lemma rq_match_community_spec comms c :
-  rq_match_community comms c = true <-> exists x, c = Some x /\ In x comms.
+(* the AS path filter looks at the whole path, however it is cut into segments: it matches
+   iff every segment is an AS_SEQUENCE and their concatenation is the wanted list *)
+Lemma rq_hops_seqs ls : rq_hops (map SegSeq ls) = map HAsn (concat ls).
 Proof.
-  destruct c as [c|]; cbn [rq_match_community].
-  - rewrite existsb_exists. split.
-    + intros [x [Hin Hx]]. apply N.eqb_eq in Hx. subst x. exists c. tauto.
-    + intros [x [[= ->] Hin]]. exists x. split; [exact Hin|apply N.eqb_refl].
-  - split; [discriminate|intros [x [Hx _]]; discriminate].
+  unfold rq_hops. induction ls as [|l ls IH]; [reflexivity|].
+  cbn [map flat_map concat]. rewrite IH, map_app. reflexivity.
 Qed.
+
+Lemma rq_match_as_path_segments segs : forall wanted,
+  rq_match_as_path (rq_hops segs) wanted = true <-> exists ls, segs = map SegSeq ls /\ concat ls = wanted.
+Proof.
+  intros wanted. rewrite rq_match_as_path_spec. split.
+  - revert wanted. induction segs as [|sg segs IH]; intros wanted H.
+    + exists []. destruct wanted; [split; reflexivity|discriminate].
+    + destruct sg as [l|]; unfold rq_hops in H; cbn [flat_map] in H; fold (rq_hops segs) in H.
+      * symmetry in H. apply map_eq_app in H as (w1 & w2 & -> & H1 & H2).
+        symmetry in H2. apply IH in H2 as (ls & -> & <-).
+        exists (l :: ls). cbn [map concat]. split; [reflexivity|]. f_equal.
+        clear -H1. revert l H1. induction w1 as [|a w1 IHw]; intros [|b l] H1; try discriminate; [reflexivity|].
+        cbn [map] in H1. injection H1 as -> H1. f_equal. apply IHw. exact H1.
+      * destruct wanted; discriminate.
+  - intros (ls & -> & <-). apply rq_hops_seqs.
+Qed.
+
+(* ---- the community filter *)
+Lemma rq_ckind_eqb_spec a b : rq_ckind_eqb a b = true <-> a = b.
+Proof. destruct a, b; cbn; split; congruence. Qed.
+
+Lemma rq_comm_eqb_spec (a b : rq_comm) : rq_comm_eqb a b = true <-> a = b.
+Proof.
+  destruct a as [ka va], b as [kb vb]. unfold rq_comm_eqb. cbn [fst snd].
+  rewrite andb_true_iff, rq_ckind_eqb_spec, N.eqb_eq. split; [intros [-> ->]; reflexivity|intros [= -> ->]; tauto].
+Qed.
+
+(* the communities of a route = the union over its community-carrying attributes *)
+Lemma rq_route_comms_in l (c : rq_comm) :
+  In c (rq_route_comms l) <-> exists vs, In (fst c, vs) l /\ In (snd c) vs.
+Proof.
+  unfold rq_route_comms, rq_attr_comms. rewrite in_flat_map. split.
+  - intros ([k vs] & Ha & Hc). cbn [fst snd] in Hc. apply in_map_iff in Hc as (v & <- & Hv).
+    exists vs. cbn [fst snd]. tauto.
+  - intros (vs & Ha & Hv). exists (fst c, vs). split; [exact Ha|]. cbn [fst snd].
+    apply in_map_iff. exists (snd c). split; [destruct c; reflexivity|exact Hv].
+Qed.
+
+Lemma rq_route_comms_app l1 l2 : rq_route_comms (l1 ++ l2) = rq_route_comms l1 ++ rq_route_comms l2.
+Proof. unfold rq_route_comms. apply flat_map_app. Qed.
+
+(* the code's walk over the attributes decides membership in that union *)
+Lemma rq_match_community_spec cattrs c :
+  rq_match_community cattrs c = true <-> In c (rq_route_comms cattrs).
+Proof.
+  unfold rq_match_community. rewrite existsb_exists, rq_route_comms_in. split.
+  - intros ([k vs] & Ha & Hx). cbn [fst snd] in Hx. apply existsb_exists in Hx as (v & Hv & He).
+    apply rq_comm_eqb_spec in He. subst c. exists vs. cbn [fst snd]. tauto.
+  - intros (vs & Ha & Hv). exists (fst c, vs). split; [exact Ha|]. cbn [fst snd].
+    apply existsb_exists. exists (snd c). split; [exact Hv|]. apply rq_comm_eqb_spec. destruct c; reflexivity.
+Qed.
+
+Lemma rq_match_community_union cattrs c :
+  rq_match_community cattrs c = true <-> exists vs, In (fst c, vs) cattrs /\ In (snd c) vs.
+Proof. rewrite rq_match_community_spec. apply rq_route_comms_in. Qed.
+
+(* no attribute ends the walk: whatever stands before or behind an attribute (other
+   community-carrying attributes included), its members are seen *)
+Lemma rq_match_community_app l1 l2 c :
+  rq_match_community (l1 ++ l2) c = rq_match_community l1 c || rq_match_community l2 c.
+Proof. unfold rq_match_community. apply existsb_app. Qed.
+
+Lemma rq_match_community_everywhere pre k vs post v :
+  In v vs -> rq_match_community (pre ++ (k, vs) :: post) (k, v) = true.
+Proof.
+  intros Hv. apply rq_match_community_union. exists vs. cbn [fst snd]. split; [|exact Hv].
+  apply in_or_app. right. left. reflexivity.
+Qed.
+
+(* the truth value depends on the SET of communities only: not on the attribute a
+   community lives in relative to the others, not on the order of the attributes, not on
+   the order or multiplicity of the members *)
+Lemma rq_match_community_set l l' c :
+  (forall x, In x (rq_route_comms l) <-> In x (rq_route_comms l')) ->
+  rq_match_community l c = rq_match_community l' c.
+Proof.
+  intros H. apply eq_true_iff_eq. rewrite !rq_match_community_spec. apply H.
+Qed.
+
+Lemma rq_match_community_perm l l' c :
+  Permutation l l' -> rq_match_community l c = rq_match_community l' c.
+Proof.
+  intros H. apply rq_match_community_set. intros x. rewrite !rq_route_comms_in.
+  split; intros (vs & Ha & Hv); exists vs; (split; [|exact Hv]).
+  - eapply Permutation_in; eauto.
+  - eapply Permutation_in; [apply Permutation_sym|]; eauto.
+Qed.
+
+Lemma rq_match_community_no_early_stop l1 l2 c pre k vs post v :
+  rq_match_community (l1 ++ l2) c = rq_match_community l1 c || rq_match_community l2 c /\
+  (In v vs -> rq_match_community (pre ++ (k, vs) :: post) (k, v) = true).
+Proof. split; [apply rq_match_community_app|apply rq_match_community_everywhere]. Qed.
+
+Lemma rq_match_community_order_irrelevant l l' c :
+  (Permutation l l' -> rq_match_community l c = rq_match_community l' c) /\
+  ((forall x, In x (rq_route_comms l) <-> In x (rq_route_comms l')) -> rq_match_community l c = rq_match_community l' c).
+Proof. split; [apply rq_match_community_perm|apply rq_match_community_set]. Qed.
+
+(* a route with COMMUNITIES [NO_EXPORT; 65000:100], LARGE_COMMUNITY [65000:1:2] and
+   EXTENDED COMMUNITIES [rt:65000:100], in this and in another order: the filter text of a
+   member of each attribute selects it, a community it does not carry (or the same octets
+   under another kind) does not *)
+Definition w_cattrs : list rq_cattr :=
+  [(CStd, [4294967041; 4259840100]); (CLarge, [(65000 * 4294967296 + 1) * 4294967296 + 2]); (CExt, [rq_ext_as2 2 65000 100])].
+Lemma community_example :
+  let sel (cattrs : list rq_cattr) (txt : list N) :=
+    match rq_parse_community txt with
+    | Some c => Some (rq_pass (MkFilters OpAny [FCommunity c] []) (MkAttrs [] cattrs) None)
+    | None => None
+    end in
+  let texts := [[110;111;95;101;120;112;111;114;116] (* "no_export" *); [54;53;48;48;48;58;49;48;48] (* "65000:100" *);
+                [54;53;48;48;48;58;49;58;50] (* "65000:1:2" *); [114;116;58;54;53;48;48;48;58;49;48;48] (* "rt:65000:100" *)] in
+  map (sel w_cattrs) texts = [Some true; Some true; Some true; Some true] /\
+  map (sel (rev w_cattrs)) texts = [Some true; Some true; Some true; Some true] /\
+  sel w_cattrs [54;53;48;48;48;58;49;58;51] (* "65000:1:3" *) = Some false /\
+  sel w_cattrs [114;111;58;54;53;48;48;48;58;49;48;48] (* "ro:65000:100" *) = Some false /\
+  sel w_cattrs [48;120;70;68;69;56;48;48;54;52] (* "0xFDE80064" = 65000:100 *) = Some true /\
+  sel [(CExt, [4259840100])] [54;53;48;48;48;58;49;48;48] (* "65000:100" *) = Some false.
+Proof. vm_compute. repeat split; reflexivity. Qed.
+
+(* a community of another kind never matches, whatever its octets *)
+Lemma rq_match_community_kind l c :
+  rq_match_community l c = true -> exists vs, In (fst c, vs) l.
+Proof. rewrite rq_match_community_union. intros (vs & H & _). eauto. Qed.
+
+(* well-known communities: the name (any case, with or without '_'), the AS:tag form and
+   the hexadecimal form denote the same community; the other three kinds by example *)
+Lemma community_spellings :
+  rq_parse_community [78;79;95;69;88;80;79;82;84] (* "NO_EXPORT" *) = Some (CStd, 4294967041) /\
+  rq_parse_community [110;111;101;120;112;111;114;116] (* "noexport" *) = Some (CStd, 4294967041) /\
+  rq_parse_community [54;53;53;51;53;58;54;53;50;56;49] (* "65535:65281" *) = Some (CStd, 4294967041) /\
+  rq_parse_community [48;120;70;70;70;70;70;70;48;49] (* "0xFFFFFF01" *) = Some (CStd, 4294967041) /\
+  rq_parse_community [66;76;65;67;75;72;79;76;69] (* "BLACKHOLE" *) = Some (CStd, 4294902426) /\
+  rq_parse_community [54;53;53;51;53;58;54;54;54] (* "65535:666" *) = Some (CStd, 4294902426) /\
+  rq_parse_community [54;53;48;48;48;58;49;58;50] (* "65000:1:2" *) = Some (CLarge, (65000 * 4294967296 + 1) * 4294967296 + 2) /\
+  rq_parse_community [114;116;58;54;53;48;48;48;58;49;48;48] (* "rt:65000:100" *) = Some (CExt, rq_ext_as2 2 65000 100) /\
+  rq_parse_community [114;111;58;52;50;48;48;48;48;48;48;48;49;58;55] (* "ro:4200000001:7" *) = Some (CExt, rq_ext_as4 3 4200000001 7) /\
+  rq_parse_community [48;120;48;48;48;50;70;68;69;56;48;48;48;48;48;48;54;52] (* "0x0002FDE800000064" *) = Some (CExt, rq_ext_as2 2 65000 100).
+Proof. vm_compute. repeat split; reflexivity. Qed.
 
 Lemma rq_match_peer_as_spec info a : rq_match_peer_as info a = true <-> info = Some (Some a).
 Proof.
@@ -126,6 +263,18 @@ Proof.
     destruct (f_op f); cbn [rq_quant]; rewrite andb_true_iff, negb_true_iff, <- not_true_iff_false.
     + rewrite !existsb_exists. tauto.
     + rewrite !forallb_forall. tauto.
+Qed.
+
+(* select[community]=c keeps exactly the routes that carry c in ANY of their community
+   attributes, discard[community]=c exactly the others - for either filter_op *)
+Lemma community_select_discard op c at_ info :
+  (rq_pass (MkFilters op [FCommunity c] []) at_ info = true <-> In c (rq_route_comms (pa_cattrs at_))) /\
+  (rq_pass (MkFilters op [] [FCommunity c]) at_ info = true <-> ~ In c (rq_route_comms (pa_cattrs at_))).
+Proof.
+  rewrite <- rq_match_community_spec.
+  unfold rq_pass. cbn [f_selects f_discards f_op rq_is_nil andb orb existsb forallb rq_matches].
+  destruct op; rewrite ?orb_false_r, ?andb_true_r; (split; [tauto|]);
+    rewrite negb_true_iff, not_true_iff_false; tauto.
 Qed.
 
 (* ---------------------------------------------------------------- selections from the store *)
